@@ -40,6 +40,16 @@ class Box(typing.Generic[T]):
 class NoHints:
     def __init__(self, *a, **k):
         pass
+class NoHintsDefault:
+    def __init__(self, parent=None, retries=0):
+        self.parent = parent
+        self.retries = retries
+    def __eq__(self, o):
+        return type(o) is NoHintsDefault and (o.parent, o.retries) == (self.parent, self.retries)
+    def __hash__(self):
+        return 1
+    def __repr__(self):
+        return f"NoHintsDefault({self.parent!r}, {self.retries!r})"
 type RecTree = list[RecTree] | int
 type RecDict = dict[str, RecDict | int]
 AliasT = typing.TypeAliasType("AliasT", T)
@@ -66,7 +76,7 @@ ATOMS = [
     ("type_int", "type[int]", "pass"), ("Type_DC", "typing.Type[DC]", "pass"),
     ("Box", "Box", "box"), ("Box_int", "Box[int]", "build"), ("NoHints", "NoHints", "build"),
     # a type variable hidden behind a wrapper
-    ("RecTree", "RecTree", "rec"), ("RecDict", "RecDict", "rec"),
+    ("RecTree", "RecTree", "rec"), ("RecDict", "RecDict", "rec"), ("None", "None", "none"), ("NoHintsDefault", "NoHintsDefault", "nohints"),
     ("Final_T", "typing.Final[T]", "pass"), ("AliasT", "AliasT", "pass"), ("NewT", "NewT", "pass"), ("NewTB", "NewTB", "conv"), ("GenDC", "GenDC", "gendc"),
 ]
 E8 = ["int", "DC", "Any", "object", "list", "T", "Callable1", "Box_int"]
@@ -122,6 +132,11 @@ def probe(t, ns, S):
                 return frozenset({S}), frozenset({S}), frozenset({S}), [S]
         if kind == "box":
             return {"item": S}, ns["Box"](S), ns["Box"](S), {"item": S}
+        if name == "None":
+            return None, None, None, None
+        if name == "NoHintsDefault":
+            # constructor parameters without annotations are unresolvable positions: whatever is given passes through
+            return {"parent": S, "retries": "x"}, ns["NoHintsDefault"](S, "x"), ns["NoHintsDefault"](S, "x"), {"parent": S, "retries": "x"}
         if name == "RecTree":
             return [["7"], "7"], [[7], 7], [[7], 7], [[7], 7]
         if name == "RecDict":
